@@ -1,5 +1,5 @@
 """Which properties are claimed, at what level, and why (feeds bin/mkmanifest)."""
-HOOK_COMMITS = []
+HOOK_COMMITS = ["ac6b1dd"]
 NOT_CLAIMED = {}
 TB = ("Trusted base: TLC 1.8.0 + CommunityModules Json/IOUtils; the Rust harness (argument rendering, comparison, "
       "catch_unwind); the Ideal operators as a reading of the property statement (adjudications logged in DESIGN.md). ")
@@ -104,5 +104,30 @@ CHECKS = {
   "technique": "TLA+ permission gate over the dependency closure + argument-list parser (Cosmetic!Injection/ParseArgs); TLC-enumerated rule sets x permissions x resource stores replayed on the real engine; random argument lists recorded from the real engine validated by TLC (Decode(Encode(arg)) = arg)",
   "text": "TLC enumerates all sets of <=2 (quick) / <=3 +js rules over 22 argument spellings x list permissions {0,1,2,3} against a store with permissioned scriptlets, permissioned transitive dependencies (incl. a dependency cycle and a missing dependency), aliases, template-style and non-injectable resources, identical and blanket exceptions; each page is queried 6 times because injection order varies per call. M3: 2.5k (quick) / 20k random argument lists (all C0 controls, quotes, backslashes, U+2028/9, $-sequences, non-ASCII, </script>) in random quoting styles go through a real engine; the emitted literals are parsed back and Trace_C18 checks them against the spec's ParseArgs.",
   "note": TB + "serde_json stands in for a JavaScript string-literal parser (valid for ES2019). Escaped quote characters inside a quoted argument are not generated (their meaning is not pinned). The 256x256 mask table is covered through 4 permission values x resource requirements here and exhaustively by the repository's own subset test; redirect refusal of permissioned resources is covered in C13.",
+ },
+
+ "C11": {
+  "level": "model_checking",
+  "technique": "TLC-enumerated lists of annotated lines x formats x rule-type options with the spec's reference list (relational clauses, M2); exhaustive boundary sliding + seeded grammar mutation recorded from the real parser and validated by a TLA+ trace spec (totality clause, thin spec)",
+  "text": "Relational clauses: TLC enumerates all lists of <=2 (quick) / <=3 lines from 42 lines whose outcome per format the spec knows by construction (network, cosmetic, 22 kinds of rejected lines, hosts entries incl. comments, localhost, three fields, invalid characters) x {standard, hosts} x {all, network-only, cosmetic-only}; the engine built from the list (three loading paths) must equal, on a 13-request + 3-page battery, the engine built with default options from the spec's reference lines (accepted lines, '||host^' for hosts entries), and the numbers of parsed rules must match. Totality: 8 multi-byte/whitespace characters slid across every character offset of 37 rule shapes (exhaustive), then seeded mutations/splices of those and of corpus lines, parsed under 4 option sets, loaded between two good lines, plus the 1024-byte metadata cut; Trace_C11 allows only the outcomes the options permit, never a panic, and requires rejected lines to leave the engine unchanged.",
+  "note": TB + "For the totality clause the specification only contributes the set of allowed outcomes (DESIGN.md section 8): the exploration strength is the generator's (level exploration for that clause).",
+ },
+ "C12": {
+  "level": "model_checking",
+  "technique": "TLA+ URL records rendered to text with the Ideal classification (hostname, party via registrable domains, scheme class, websocket forcing) enumerated by TLC; replayed on Request::new and Request::preparsed; arbitrary strings recorded and validated by a TLA+ trace spec (totality)",
+  "text": "TLC enumerates URL records over 7 scheme spellings x userinfo variants (with ':' and '@') x 17 hosts (subdomains, multi-label public suffix, single label, IPv4, upper case, IDN) x ports x 7 path/query/fragment shapes (incl. '@' after the host and an empty path) x 11 sources (incl. absent, unparseable, a public suffix) x request types: 110k (quick) / 1.4M cases; hostname, third-party, supported, http/https and type are compared, and Request::preparsed on the consistent tuple must equal Request::new field by field and in engine verdicts. Totality: 20k / 200k arbitrary strings (control characters, tabs/newlines, IPv6 brackets, percent escapes, astral characters, punycode) for all arguments of both constructors; no panic, and scheme flags consistent.",
+  "note": TB + "The registrable domain is computed in the spec for the suffixes of the universe (com, net, co.uk, рф) and must agree with the real resolver, which is thereby checked on that universe; punycode is a given table. Trailing-dot hosts and IPv6 literals are only in the totality part.",
+ },
+ "C19": {
+  "level": "model_checking",
+  "technique": "TLA+ specification of N threads x M queries around the regex-manager lock (Concurrency.tla) checked by TLC incl. liveness; real multi-threaded runs on the thread-safe build observed through cfg-guarded lock hooks and validated event by event against the spec's actions",
+  "text": "M1: all interleavings of 2 (quick) / 3 threads x 2 queries with nondeterministic cache discards: mutual exclusion, lock consistency, no panic (poisoning), deadlock freedom, sequential answers, every started query ends under weak fairness; two deviation switches (try_lock; discarded regex not recompiled) must be found. M3: 3 (quick) / 12 runs of 8 / 16 free-running threads x 1500 / 5000 mixed network/csp/cosmetic queries on one shared engine with the 1ns/0 discard policy; begin/locked/unlocking/end events carry a global sequence number taken under the lock; Trace_C19 maps them to the spec's Begin/Acquire/Work.Release steps, checks every answer against the sequential table, and checks that the thread-safe and the single-thread build have the same table.",
+  "note": TB + "Real schedules are sampled, not enumerated; forcing TLC-generated schedules onto real threads is not implemented. A hang is turned into a 'deadlock' event by a 60 s watchdog.",
+ },
+ "C20": {
+  "level": "model_checking",
+  "technique": "TLA+ output predicates (ASCII, Safari regex subset scanner, domain-list exclusivity, ordering, converted-list consistency) and Match => CbMatch over the TLC-enumerated C02 pattern universe; conversions recorded from the real exporter and validated by a TLA+ trace spec",
+  "text": "Every conversion is an event checked by Trace_C20: each emitted rule must be ASCII, its url-filter must pass a character-level scanner for the regex subset Safari accepts, never carry both domain lists, all ignore-previous-rules entries come last, and the list of converted rules must be exactly the input rules that produce output on their own. Inputs: 69 hand-written rule shapes (every option, '$' inside patterns, from=, non-ASCII and non-IDNA domains, scheme-folded rules with contradictory types, entity/negated cosmetic locations), every plain pattern of the TLC-enumerated C02 universe (for which the Ideal match is exported and the emitted pattern must match every URL the rule must match), random sets of those, and 20-80 line samples of three real lists; 1.2k (quick) / 8k conversions.",
+  "note": TB + "The emitted url-filter is evaluated with the regex crate (stand-in for Safari's engine). 'Plain pattern' = no '*' and no '^'. For totality the spec contributes only 'no panic' (exploration-level for that clause). One of the hand-written inputs was taken from a seeded-change report (see DESIGN.md).",
  },
 }
